@@ -327,7 +327,7 @@ def run_harness(h, tier, outdir):
     res['runs'] = []
     for tag, wdef in runs:
         cmd = cbmc_cmd(h, wd, wdef)
-        r = run_cmd(cmd, h.timeout, h.mem_gb, cwd=wd)
+        r = run_cmd(cmd, min(h.timeout, int(os.environ.get('VERIF_TIMEOUT', '100000'))), h.mem_gb, cwd=wd)
         open(os.path.join(wd, 'cbmc_%s.log' % tag), 'w').write(' '.join(cmd) + '\n' + r['out'] + '\n--- stderr ---\n' + r['err'])
         verdict, props, st = parse_cbmc(r['out'])
         rr = dict(tag=tag, cmd=' '.join(cmd), wall_s=round(r['wall'], 2), rss_mb=r['rss_mb'], verdict=verdict, nprops=len(props), stats=st)
